@@ -549,3 +549,16 @@ func (s *Server) Respond(h *Hello, padLen int, key *DHKey) ([]byte, *Session) {
 	master := sha256.Sum256(key.Shared(h.X))
 	return resp, newSession(master[:])
 }
+
+// RawPacket builds a packet with arbitrary header fields (for hostile-peer
+// workloads): MAC(16) | E(total(2) | payloadLen(2) | flags(1) | body).  The MAC
+// is valid, so a receiver gets past authentication and sees the header as is.
+func (e *Encoder) RawPacket(total, payloadLen uint16, flags byte, body []byte) []byte {
+	pt := make([]byte, HdrLen+len(body))
+	binary.BigEndian.PutUint16(pt[0:], total)
+	binary.BigEndian.PutUint16(pt[2:], payloadLen)
+	pt[4] = flags
+	copy(pt[HdrLen:], body)
+	e.c.xor(pt)
+	return append(Mac128(e.macKey, pt), pt...)
+}
